@@ -274,8 +274,10 @@ def gen_case(rng, kind):
 def run_bits(case):
     from cirbo.circuits_db.bit_io import BitReader, BitWriter
     w = BitWriter()
-    for b in case['bits']:
+    for i_, b in enumerate(case['bits']):
         w.write(bool(b))
+        if i_ % 3 == 1:
+            bytes(w)         # an observation in the middle of a byte
     data = bytes(w)
     r = BitReader(data)
     back = [r.read() for _ in case['bits']]
@@ -488,7 +490,7 @@ def oracle_circuit(dump):
         if fmt:
             return f'format-circuit-rejected: a circuit inside the format is refused by encode_circuit ({n}: {e})'
         return None
-    if not decodable_in_practice(data):
+    if not decodable_in_practice(data) and data[0] > len(dump['gates']).bit_length() + 1:
         return (f'encoded-bytes-do-not-decode: encode_circuit returned {data.hex()}, whose header announces word size '
                 f'{data[0]} for a circuit of {len(dump["gates"])} gates (not handed to decode_circuit)')
     try:
@@ -525,8 +527,10 @@ def oracle_bits(case):
     from cirbo.circuits_db.bit_io import BitReader, BitWriter
     from cirbo.circuits_db.exceptions import BitIOError
     w = BitWriter()
-    for b in case['bits']:
+    for i_, b in enumerate(case['bits']):
         w.write(bool(b))
+        if i_ % 3 == 1:
+            bytes(w)         # an observation in the middle of a byte
     data = bytes(w)
     if len(data) != (len(case['bits']) + 7) // 8:
         return f'bit-roundtrip: {len(case["bits"])} bits were written into {len(data)} bytes'
@@ -548,6 +552,7 @@ def oracle_numbers(case):
             if x >= (1 << k):
                 return f'number-limit: write_number({x}, {k}) accepted a number of more than {k} bits'
             written.append((x, k))
+            bytes(w)         # looking at the bytes written so far is an observation: it must not disturb the stream
         except BitIOError:
             if x < (1 << k):
                 return f'number-limit: write_number({x}, {k}) refused a number that fits'
